@@ -381,7 +381,7 @@ class Env:
                     sleep=self._default_sleep)
         for mod in (_state_mod, _execution_mod, _timeline_mod, _budget_mod, _helpers_mod):
             mod.time = mono
-        _helpers_mod.asyncio = Shim(sleep=self._default_async_sleep)
+        _helpers_mod.asyncio = Shim(asyncio, sleep=self._default_async_sleep)
 
     # -- oracle plumbing ------------------------------------------------------------------------
     def info(self) -> dict:
